@@ -224,11 +224,7 @@ public:
     /// \returns Iterator following the last removed element.
     constexpr auto erase(iterator first, iterator last) -> iterator
     {
-        auto res = first;
-        for (; first != last; ++first) {
-            res = erase(first);
-        }
-        return res;
+        return _storage.erase(first, last);
     }
 
     /// \brief Removes the element (if one exists) with the key equivalent to
